@@ -379,10 +379,5 @@ def build(E):
     # "through to the running server": the decision is taken on the peer's address as the transport reports it - the server protocol
     # hands exactly peername[0] to the chain (obligation 'consulted with the real peer address' at every chain call site)
     from contracts import server_events
-    own_syn = list(spec.syntactic)
-    pk = getattr(spec, "keep", None)
-    server_events.build_for(E, spec, "C09")
-    evk = spec.keep
-    SPQ = "nauyaca.server.protocol:GeminiServerProtocol."
-    spec.keep = lambda name: ("consulted with the real peer address" in name) if name.startswith(SPQ) else (pk(name) if pk else True)
+    spec.subs = [server_events.as_sub("C09", only="consulted with the real peer address")]
     return spec
